@@ -52,6 +52,7 @@ struct Run {
     unsigned long long seed = 0;
     int dmode = 0;
     std::size_t nf = 0;
+    std::string cfgline;
 
     std::mutex mu;
     std::vector<Event> log;
@@ -168,6 +169,14 @@ bool input_step(Run& r, tbb::flow_control& fc, std::size_t& id) {
     {
         std::lock_guard<std::mutex> g(r.mu);
         inv = r.next_inv++;
+        if (inv > (long)r.items + 20000) {      // end of input is ignored: the pipeline would never return; report like the watchdog does
+            std::printf("%s\n", r.cfgline.c_str());
+            std::puts("hang");
+            std::printf("MON hang the input filter was invoked %ld times, more than 20000 times after it called flow_control::stop()\n", inv);
+            std::puts("end");
+            std::fflush(stdout);
+            _exit(7);
+        }
         r.add('B', inv, 0);
         int was = r.inside[0].fetch_add(1);
         if (was != 0 && r.modes[0] != 'p') {
@@ -306,6 +315,7 @@ void do_run(const char* line) {
     {
         std::ostringstream o; o << "begin " << modes << " " << limit << " " << items << " " << threads << " " << seed << " " << dm;
         cfgline = o.str();
+        r.cfgline = cfgline;
     }
     std::thread watchdog([&] {
         std::unique_lock<std::mutex> lk(wmu);
